@@ -153,6 +153,7 @@ type PathOpts struct {
 	PredShare int  // out of 10: chance that a step carries predicates
 	ForcePred bool // at least one predicate somewhere
 	LastPred  bool // with ForcePred: the last step always carries a boolean predicate
+	Mixed     bool // prefer predicates whose reference verdicts over the candidates are mixed
 	Pos       bool // child steps may carry a positional first predicate (C03)
 	AbsShare  int  // out of 10: chance of an absolute path
 	DSlash    int  // out of 10: chance of '//' before a step
@@ -195,7 +196,11 @@ func (g *G) AxisPath(ctx *xdoc.Node, o PathOpts) *xast.Path {
 		if o.PredDepth > 0 && (g.chance(o.PredShare, "haspred") || (last && o.ForcePred && (!any || o.LastPred))) {
 			np := 1 + g.intn(2, "npred")
 			for j := 0; j < np; j++ {
-				s.Preds = append(s.Preds, g.BoolPred(cands, o.PredDepth))
+				if o.Mixed {
+					s.Preds = append(s.Preds, g.MixedPred(cands, o.PredDepth))
+				} else {
+					s.Preds = append(s.Preds, g.BoolPred(cands, o.PredDepth))
+				}
 				any = true
 			}
 		}
@@ -269,6 +274,74 @@ func (g *G) FlatPath(base xref.NodeSet) *xast.Path {
 	return p
 }
 
+// litFor draws a string literal for a comparison with path p: with probability
+// 6/10 the string-value of a node p actually reaches from one of the candidates
+// (so that the comparison is true for some candidates and false for others),
+// else one from the pool.
+func (g *G) litFor(cands xref.NodeSet, p xast.Expr, pool []string, numeric bool) string {
+	if len(cands) > 0 && g.chance(6, "reachlit") {
+		var vals []string
+		seen := map[string]bool{}
+		for i, c := range cands {
+			if i >= 6 {
+				break
+			}
+			v, err := xref.Eval(g.Env, p, c)
+			if err != nil {
+				continue
+			}
+			ns, _ := v.(xref.NodeSet)
+			for j, n := range ns {
+				if j >= 4 {
+					break
+				}
+				sv := xdoc.StringValue(n)
+				if len(sv) > 12 || seen[sv] || containsQuote(sv) {
+					continue
+				}
+				if numeric && !xref.IsXPathNumber(sv) {
+					continue
+				}
+				seen[sv] = true
+				vals = append(vals, sv)
+			}
+		}
+		if len(vals) > 0 {
+			v := vals[g.intn(len(vals), "reachval")]
+			if numeric {
+				v = trimNum(v)
+			}
+			if v != "" {
+				return v
+			}
+		}
+	}
+	return g.pick(pool, "poollit")
+}
+
+func containsQuote(s string) bool {
+	for _, c := range s {
+		if c == '\'' || c == '"' {
+			return true
+		}
+	}
+	return false
+}
+
+// trimNum turns a numeric string-value into a number literal (no sign, no surrounding blanks).
+func trimNum(s string) string {
+	out := ""
+	for _, c := range s {
+		if (c >= '0' && c <= '9') || c == '.' {
+			out += string(c)
+		}
+	}
+	if out == "." {
+		return ""
+	}
+	return out
+}
+
 var cmpOps = []string{"=", "!=", "<", "<=", ">", ">="}
 var eqOps = []string{"=", "!="}
 
@@ -280,10 +353,12 @@ func (g *G) BoolPred(cands xref.NodeSet, depth int) xast.Expr {
 		return g.RelPath(cands, 2, depth)
 	case 3:
 		op := g.pick(eqOps, "eqop")
+		rp := g.RelPath(cands, 2, 0)
+		lit := &xast.Str{S: g.litFor(cands, rp, g.StrLits, false)}
 		if rapid.Bool().Draw(g.T, "flip") {
-			return &xast.Bin{Op: op, L: &xast.Str{S: g.pick(g.StrLits, "slit")}, R: g.RelPath(cands, 2, 0)}
+			return &xast.Bin{Op: op, L: lit, R: rp}
 		}
-		return &xast.Bin{Op: op, L: g.RelPath(cands, 2, 0), R: &xast.Str{S: g.pick(g.StrLits, "slit")}}
+		return &xast.Bin{Op: op, L: rp, R: lit}
 	case 4:
 		var arg xast.Expr
 		if g.NonFlatCount && g.chance(5, "nonflatcount") {
@@ -294,10 +369,12 @@ func (g *G) BoolPred(cands xref.NodeSet, depth int) xast.Expr {
 		return &xast.Bin{Op: g.pick(cmpOps, "cop"), L: &xast.Call{Name: "count", Args: []xast.Expr{arg}}, R: &xast.Num{Lit: g.pick(g.NumLits, "nlit")}}
 	case 5:
 		op := g.pick(cmpOps, "rop")
+		rp := g.RelPath(cands, 2, 0)
+		lit := &xast.Num{Lit: g.litFor(cands, rp, g.NumLits, true)}
 		if rapid.Bool().Draw(g.T, "flip") {
-			return &xast.Bin{Op: op, L: &xast.Num{Lit: g.pick(g.NumLits, "nlit")}, R: g.RelPath(cands, 2, 0)}
+			return &xast.Bin{Op: op, L: lit, R: rp}
 		}
-		return &xast.Bin{Op: op, L: g.RelPath(cands, 2, 0), R: &xast.Num{Lit: g.pick(g.NumLits, "nlit")}}
+		return &xast.Bin{Op: op, L: rp, R: lit}
 	case 6:
 		return &xast.Call{Name: "not", Args: []xast.Expr{g.BoolPred(cands, depth)}}
 	case 7:
@@ -328,7 +405,7 @@ func (g *G) BoolPred(cands xref.NodeSet, depth int) xast.Expr {
 
 // PosPred draws a positional predicate of the C03 fragment.
 func (g *G) PosPred() xast.Expr {
-	n := &xast.Num{Lit: g.pick([]string{"1", "2", "3", "4", "5", "6"}, "posn")}
+	n := &xast.Num{Lit: g.pick([]string{"1", "2", "1", "2", "3", "3", "4", "5", "6"}, "posn")}
 	switch g.intn(6, "poskind") {
 	case 0, 1:
 		return n
@@ -359,16 +436,48 @@ func (g *G) PredExpr(ctx *xdoc.Node, depth int) xast.Expr {
 		f := &xast.Filter{Primary: &xast.Group{X: inner}}
 		n := 1 + g.intn(2, "nfpred")
 		for j := 0; j < n; j++ {
-			f.Preds = append(f.Preds, g.BoolPred(cands, depth))
+			f.Preds = append(f.Preds, g.MixedPred(cands, depth))
 		}
 		return f
 	}
-	return g.AxisPath(ctx, PathOpts{MaxSteps: 3, PredDepth: depth, PredShare: 3, ForcePred: true, LastPred: true, AbsShare: 4, DSlash: 2})
+	return g.AxisPath(ctx, PathOpts{MaxSteps: 3, PredDepth: depth, PredShare: 2, ForcePred: true, LastPred: true, Mixed: true, AbsShare: 4, DSlash: 2})
+}
+
+// MixedPred draws up to three boolean predicates and keeps the first one whose
+// reference verdicts over the candidates are mixed (some true, some false) - the
+// shape on which state leaking between candidates shows. Falls back to the last draw.
+func (g *G) MixedPred(cands xref.NodeSet, depth int) xast.Expr {
+	var p xast.Expr
+	for try := 0; try < 3; try++ {
+		p = g.BoolPred(cands, depth)
+		if len(cands) < 2 {
+			return p
+		}
+		t, f := 0, 0
+		for i, c := range cands {
+			if i >= 8 {
+				break
+			}
+			v, err := xref.Eval(g.Env, &xast.Call{Name: "boolean", Args: []xast.Expr{p}}, c)
+			if err != nil {
+				break
+			}
+			if v.(bool) {
+				t++
+			} else {
+				f++
+			}
+		}
+		if t > 0 && f > 0 {
+			return p
+		}
+	}
+	return p
 }
 
 // PosN draws the integer of a [n] predicate.
 func (g *G) PosN() *xast.Num {
-	return &xast.Num{Lit: g.pick([]string{"1", "2", "3", "4", "5", "6"}, "n")}
+	return &xast.Num{Lit: g.pick([]string{"1", "2", "1", "2", "3", "3", "4", "5", "6"}, "n")}
 }
 
 // GroupN draws (flat)[n] or (//name)[n], optionally followed by a boolean predicate.
